@@ -56,7 +56,8 @@ def load_findings():
 def matches(finding, v):
     if finding.get("status") != "open":
         return False
-    if finding["property"] != v["property"] or finding["oracle"] != v["oracle"]:
+    oracles = finding["oracle"] if isinstance(finding["oracle"], list) else [finding["oracle"]]
+    if finding["property"] != v["property"] or v["oracle"] not in oracles:
         return False
     pats = finding.get("site", {})
     if isinstance(pats, dict):
